@@ -363,6 +363,10 @@ def pushOuts : List Ret → Nat → St → St
 
 def anyNd (f : Nat → Val) (n : Nat) : Bool := (List.range n).any (fun k => (f k).isNd)
 
+/-- the node's own readiness gate: an input holds no data, `run()` raises `ReadinessError` before
+anything happens (a refusal, not a failure: nothing is marked failed, nothing changes) -/
+def refused (n : Node) (σ : St) : Bool := anyNd (σ.get .inp) n.arity
+
 mutual
 /-- `node.run()`; `none` = somebody was not ready (the model does not follow failures, C06 does) -/
 def run : Node → St → Option St
